@@ -109,18 +109,19 @@ H("C12", "group", "c12_insert_step_from_5", bounds="any sorted group of 5 u32 + 
 H("C12", "group", "c12_from_vec_termid_3", bounds="3 arbitrary ids", inputs="[u32;3]")
 H("C12", "group", "c12_from_vec_u32_3", bounds="3 arbitrary ids", inputs="[u32;3]")
 H("C12", "group", "c12_from_iter_termid_3", bounds="3 arbitrary ids", inputs="[u32;3]")
-H("C12", "group", "c12_algebra_universe3", bounds="all 8x8 subset pairs of an ascending symbolic universe of 3", inputs="[u32;3], 2 masks")
+H("C12", "group", "c12_algebra_universe3", tq=900, bounds="all 8x8 subset pairs of an ascending symbolic universe of 3", inputs="[u32;3], 2 masks")
 H("C12", "group", "c12_bitor_universe4", mem="medium", tq=900, bounds="all 16x16 subset pairs, universe of 4", inputs="[u32;4], 2 masks")
 H("C12", "group", "c12_bitand_universe4", mem="medium", tq=900, bounds="all 16x16 subset pairs, universe of 4", inputs="[u32;4], 2 masks")
 H("C12", "group", "c12_bitor_universe6", tier="thorough", mem="heavy", tt=3600, deep=True, bounds="all 64x64 subset pairs, universe of 6")
 H("C12", "group", "c12_bitand_universe6", tier="thorough", mem="heavy", tt=3600, deep=True, bounds="all 64x64 subset pairs, universe of 6")
-H("C12", "group", "c12_add_single_id", bounds="all subsets of universe 4 + arbitrary u32", inputs="[u32;4], mask, u32")
-H("C12", "group", "c12_owned_operands", bounds="all subset pairs of universe 3, 4 owned-operand impls")
-H("C12", "group", "c12_as_bytes", bounds="all subsets of universe 3")
+H("C12", "group", "c12_add_single_id_u3", tq=900, mem="medium", bounds="all subsets of universe 3 + arbitrary u32", inputs="[u32;3], mask, u32")
+H("C12", "group", "c12_add_single_id", tier="thorough", mem="medium", tt=3600, bounds="all subsets of universe 4 + arbitrary u32", inputs="[u32;4], mask, u32")
+H("C12", "group", "c12_owned_operands", tq=1200, mem="medium", bounds="all subset pairs of universe 3, 4 owned-operand impls")
+H("C12", "group", "c12_as_bytes", tq=900, bounds="all subsets of universe 3")
 H("C12", "group", "c12_shim_differential_vs_vec", bounds="4 inserts at arbitrary positions + 1 push, shim vs Vec")
 H("C12", "group", "c12_twin_must_fail", expect="fail")
 H("C12", "hpoterm", "c12_ancestor_algebra_u2", mem="medium", tq=900, bounds="two terms, own ids any u32, ancestor sets = any subsets of an ascending symbolic universe of 2; probe id any u32")
-H("C12", "hpoterm", "c12_ancestor_algebra_u3", mem="heavy", tq=1500, bounds="same, universe of 3")
+H("C12", "hpoterm", "c12_ancestor_algebra_u3", tier="thorough", mem="heavy", tt=3600, bounds="same, universe of 3")
 H("C12", "hpoterm", "c12_ancestor_algebra_u4", tier="thorough", mem="heavy", tt=3600, deep=True, bounds="same, universe of 4")
 
 # ------------------------------------------------------------------------------------------------
